@@ -67,3 +67,33 @@ Theorem C17_specification_of_the_accumulation :
 Proof. exact @loop_combine_cases. Qed.
 Print Assumptions C17_specification_of_the_accumulation.
 
+Theorem C17_exactly_the_configured_number_of_iterates :
+  forall (N : Num) (n : network N) (x out : tensor N) (a b k : nat) (inskips : bool),
+         n_connect n = [] ->
+         n_loopbacks n = [(b, (a, k, inskips))] ->
+         a <= b ->
+         b < length (n_layers n) ->
+         predict n x = Ok out ->
+         let layers := n_layers n in
+         let mid := sub_layers layers a (b + 1) in
+         exists (li : layer N) (xa y0 : tensor N) (ys : list (tensor N)) (v : tensor N),
+           nth_error layers a = Some li /\
+           range_out (firstn a layers) x = Ok xa /\
+           range_out mid xa = Ok y0 /\
+           loop_vals mid li xa inskips k y0 = Ok ys /\ length ys = k /\
+           loop_combine (n_loopacc n) y0 ys = Ok v /\ range_out (skipn (b + 1) layers) v = Ok out.
+Proof. exact @loop_forward_iterates_count. Qed.
+Print Assumptions C17_exactly_the_configured_number_of_iterates.
+
+Theorem C17_zero_iterations_leave_the_plain_network :
+  forall (N : Num) (n : network N) (x out : tensor N) (a b : nat) (inskips : bool),
+         n_connect n = [] ->
+         n_loopbacks n = [(b, (a, 0, inskips))] ->
+         n_loopacc n <> AccMean ->
+         a <= b ->
+         b < length (n_layers n) ->
+         predict n x = Ok out ->
+         range_out (n_layers n) x = Ok out.
+Proof. exact @loop_zero_iterations_is_plain. Qed.
+Print Assumptions C17_zero_iterations_leave_the_plain_network.
+
